@@ -4,6 +4,7 @@ import (
 	"go/ast"
 	"go/constant"
 	"go/token"
+	"go/types"
 
 	"github.com/go-critic/go-critic/checkers/internal/astwalk"
 	"github.com/go-critic/go-critic/checkers/internal/lintutil"
@@ -99,6 +100,11 @@ func (c *badCondChecker) lessAndGreater(lhs, rhs *ast.BinaryExpr) bool {
 	}
 	if !typep.SideEffectFree(c.ctx.TypesInfo, lhs.X) {
 		// f() < 1 && f() > 5 compares two different values.
+		return false
+	}
+	if xt, yt := c.ctx.TypeOf(lhs.X), c.ctx.TypeOf(rhs.X); !types.Identical(xt, yt) {
+		// An untyped operand (1<<s) takes the type of what it's compared with:
+		// 1<<s < int8(100) && 1<<s > int64(200) compares two different values.
 		return false
 	}
 	a := c.ctx.TypesInfo.Types[lhs.Y].Value
